@@ -3,3 +3,5 @@ import NbdimeProofs.Lemmas.SeqBridge
 import NbdimeProofs.Properties.C02
 import NbdimeProofs.Properties.C14
 import NbdimeProofs.Properties.C12
+import NbdimeProofs.Lemmas.KV
+import NbdimeProofs.Properties.C18
